@@ -8,6 +8,7 @@ Open Scope Z_scope.
 
 Lemma src_prepend_compact_size_eq : forall d, src_prepend_compact_size d = of_option (prepend_compact_size d).
 Proof.
-  intros d. unfold src_prepend_compact_size, prepend_compact_size. rewrite src_encode_varint_eq.
-  destruct (encode_varint (Z.of_nat (length d))); reflexivity.
+  intros d. unfold src_prepend_compact_size. tie_pipe.
 Qed.
+
+#[global] Hint Rewrite src_prepend_compact_size_eq : tie.
